@@ -225,7 +225,9 @@ def large_history(rng, ty, order, n):
         # beyond 3000 keys seqrun makes no per-op shape check anyway; the per-op lock sweep costs
         # a snapshot of the whole tree (most of a quick check's CPU time went there): every
         # fourth op is enough, a leaked mutex stays locked until the next sweep finds it
-        lines.append("opt sweep 4")
+        # a sweep walks (and snapshots) the whole tree: keep the total sweep work about linear in
+        # the history — every 4th op up to ~16 000 keys, proportionally sparser beyond
+        lines.append("opt sweep %d" % max(4, n // 4000))
     for i, k in enumerate(load):
         lines.append("ins %s %d" % (k, i % 89))
     lines.append("snap")
